@@ -428,15 +428,36 @@ impl CallStack {
     ) -> Result<(), StoryError> {
         self.threads.clear();
 
-        let j_threads = j_obj.get("threads").unwrap();
+        let j_threads = j_obj
+            .get("threads")
+            .and_then(|t| t.as_array())
+            .ok_or(StoryError::BadJson("Invalid callstack threads".to_owned()))?;
 
-        for j_thread_tok in j_threads.as_array().unwrap().iter() {
-            let j_thread_obj = j_thread_tok.as_object().unwrap();
+        for j_thread_tok in j_threads.iter() {
+            let j_thread_obj = j_thread_tok
+                .as_object()
+                .ok_or(StoryError::BadJson("Invalid callstack thread".to_owned()))?;
             let thread = Thread::from_json(main_content_container, j_thread_obj)?;
+
+            // Every thread needs at least one callstack element to have a position.
+            if thread.callstack.is_empty() {
+                return Err(StoryError::BadJson(
+                    "Callstack thread without elements".to_owned(),
+                ));
+            }
+
             self.threads.push(thread);
         }
 
-        self.thread_counter = j_obj.get("threadCounter").unwrap().as_i64().unwrap() as usize;
+        if self.threads.is_empty() {
+            return Err(StoryError::BadJson("Callstack without threads".to_owned()));
+        }
+
+        self.thread_counter = j_obj
+            .get("threadCounter")
+            .and_then(|c| c.as_u64())
+            .and_then(|c| usize::try_from(c).ok())
+            .ok_or(StoryError::BadJson("Invalid thread counter".to_owned()))?;
         self.start_of_root = Pointer::start_of(main_content_container.clone()).clone();
 
         Ok(())
